@@ -12,6 +12,7 @@ Only statements and their final proofs live here; lemmas are in Verif.Proofs.Cod
 -/
 import Verif.Proofs.Codec.Sort
 import Verif.Proofs.Codec.Canonical
+import Verif.Proofs.Codec.Cbor
 namespace Verif.Properties.C42
 open Verif.Model.Codec Verif.Model.Codec.Ccf Verif.Proofs.Codec.Sort Verif.Proofs.Codec.Canonical
 
@@ -27,6 +28,17 @@ theorem simple_types_pinned :
     simpleTypeID "Bytes" = some 49 ∧ simpleTypeID "Void" = some 50 ∧ simpleTypeID "Function" = none ∧
     (Verif.Gen.CcfTags.simpleTypes.find? (fun e => e.1 == simpleTypeFunction)).map (·.2.1) = some "SimpleTypeFunction" := by
   decide
+
+/-- CBOR item layer (full strength for the subset CCF uses): every well-formed data item (head arguments
+below 2^64; simple values false / true / null) is read back from its shortest-form encoding, with any
+trailing bytes left unread, and a complete message decodes to the item. -/
+theorem cbor_roundtrip (i : Cbor) (hw : i.wf = true) :
+    (∀ fuel rest, Cbor.need i ≤ fuel → Cbor.decodeItem fuel (Cbor.encode i ++ rest) = some (i, rest)) ∧
+    Cbor.decode (Cbor.encode i) = some i :=
+  ⟨fun fuel rest hf => Verif.Proofs.Codec.CborRt.decodeItem_encode i fuel rest hw hf,
+   Verif.Proofs.Codec.CborRt.decode_encode i hw⟩
+
+example : (Cbor.tag 130 (.arr [.tag 137 (.uint 4), .tag 3 (.bytes [1, 0]), .text "é", .nint 300, Cbor.null])).wf = true := by decide
 
 /-- The sorters (`sort.Sort` with the comparators of sort.go, modelled by insertion sort): sorting a
 permutation gives one result whenever the comparator is a total preorder that is antisymmetric on
